@@ -1,5 +1,5 @@
 from .. import facts
-from ..rules import threads
+from ..rules import traps, threads
 
 
 def run(ck):
@@ -9,3 +9,4 @@ def run(ck):
     threads.r2_validate_readonly(ck, P)
     threads.r3_drawing_no_mutation(ck, P)
     threads.r4_sources_untouched(ck, P)
+    traps.r7_edge_clamps(ck, P)              # C04-R7: a read-modify-write of the byte after a row races with the thread that owns the adjacent image
